@@ -97,16 +97,26 @@ def bind_pairs(cases, traces, meta, pair_ids):
 def main() -> int:
     ck = core.Check("C03", "model_checking")
     rnd = random.Random(ck.seed)
-    # M
-    ck.model_check("ReportLexer", "MC_ReportLexer.cfg" if ck.quick else "MC_ReportLexer_thorough.cfg", "report lexer: accepts exactly headline + bulleted entries", workers=4, timeout=600)
-    ck.model_check("Pipeline", "MC_Pipeline.cfg", "pipeline design (strict): ExitIffSilent, StdoutTail, ReportShape, FoundSubsetReported, NoOtherTermination", workers=4, timeout=600)
-    ck.model_check("Pipeline", "MC_PipelineLoose_quick.cfg" if ck.quick else "MC_PipelineLoose.cfg", "pipeline contract (any order of passes, skipped stages): same clauses", workers=8, timeout=1500)
+    # M (three design-level checks) and G run concurrently: they are independent TLC jobs
     rp = pipe_check.replay_case()
     pair_ids = {}
+    built = {}
+
+    def build():
+        built["v"] = build_cases(ck, rnd)
+
+    jobs = [
+        lambda: ck.model_check("ReportLexer", "MC_ReportLexer.cfg" if ck.quick else "MC_ReportLexer_thorough.cfg", "report lexer: accepts exactly headline + bulleted entries", workers=2, timeout=900),
+        lambda: ck.model_check("Pipeline", "MC_Pipeline.cfg", "pipeline design (strict): ExitIffSilent, StdoutTail, ReportShape, FoundSubsetReported, NoOtherTermination", workers=2, timeout=900),
+        lambda: ck.model_check("Pipeline", "MC_PipelineLoose_quick.cfg" if ck.quick else "MC_PipelineLoose.cfg", "pipeline contract (any order of passes, skipped stages): same clauses", workers=6, timeout=1500),
+    ]
+    if rp is None:
+        jobs.append(build)
+    pipe_check.in_parallel(jobs)
     if rp is not None:
         cases, counts = [dict(rp, desc=rp.get("desc", {"src": "replay"}))], {"replay": 1}
     else:
-        cases, counts, pair_ids = build_cases(ck, rnd)
+        cases, counts, pair_ids = built["v"]
     traces, meta, installed = pipe_check.run_cases(ck, cases, "harness.run_c03", "c03")
     n_pairs = bind_pairs(cases, traces, meta, pair_ids)
     viols, counters = pipe_check.validate(ck, traces, "PipelineTrace_C03.cfg", "exit status <=> silence, stdout tail, report shape, found errors reported, pairs")
